@@ -3,10 +3,13 @@ evaluation properties), value pools at the edges of every domain, layout policie
 from fractions import Fraction
 from . import ref
 
-NAMES = ["a", "b", "c", "x", "y", "z", "foo", "bar_1", "v.w", "_t", "k9", "é", "éa1", "#k", "@m", "T", "nota", "inn", "ORx"]
+NAMES = ["a", "b", "c", "x", "y", "z", "foo", "bar_1", "v.w", "_t", "k9", "é", "éa1", "#k", "@m", "T", "nota", "inn", "ORx",
+         "e", "E1", "None", "null", "nan", "inf", "x.y.z", "a_", "self", "truex", "Falsey", "i", "_", "a.1", "q" * 40]
 FNAMES = ["f", "g", "h2", "min", "max", "sum", "mul", "fn_1", "é"]
-STRS = ["", "a", "ab", "é", "a b", "it's", 'say "hi"', "x+y", "in", "1,2", "(", "\t", "日本", " ", "not", "]", ";"]
-PARSE_NUMS = [("0", 0), ("1", 0), ("2", 0), ("7", 0), ("10", 0), ("150", 2), ("5", 1), ("1", 1), ("100", 2), ("12345678901234567890", 0), ("1", 28), ("79228162514264337593543950335", 0), ("300", 2), ("7", 3)]
+STRS = ["", "a", "ab", "é", "a b", "it's", 'say "hi"', "x+y", "in", "1,2", "(", "\t", "日本", " ", "not", "]", ";",
+        "\\", "\\n", "a\\tb", "\x00", "\n", "\r\n", "?:", "true", "1e5", "#", "s" * 300, "))", "[{", "a'b'c", 'x"y"z', "😀", "\u00a0"]
+PARSE_NUMS = [("0", 0), ("1", 0), ("2", 0), ("7", 0), ("10", 0), ("150", 2), ("5", 1), ("1", 1), ("100", 2), ("12345678901234567890", 0), ("1", 28), ("79228162514264337593543950335", 0), ("300", 2), ("7", 3),
+              ("2147483648", 0), ("4294967296", 0), ("9223372036854775808", 0), ("18446744073709551616", 0), ("9007199254740993", 0), ("0", 3), ("1000000000000000000", 0), ("255", 0), ("65536", 0)]
 
 CALC_OPS = [o for o, v in ref.BUILTIN_INFIX.items() if v[2] == "CALC"]
 SETTER_OPS = [o for o, v in ref.BUILTIN_INFIX.items() if v[2] == "SETTER"]
@@ -141,6 +144,7 @@ NUM_EDGE = [
     (MAXD, 0), (MAXD - 1, 0), (MAXD, 28), (1, 28), (3, 28), (I64MAX, 0), (I64MAX + 1, 0), (1 << 64, 0), ((1 << 64) + 5, 0), (I64MAX, 1),
     (10 ** 28, 0), (10 ** 27, 0), (9999999999999999999999999999, 0), (1234567890123456789012345678, 14), (5 * 10 ** 27, 0), (9007199254740992, 0), (9007199254740993, 0),
     (1 << 32, 0), (65, 0), (0, 5), (6000000000000000000000000000, 1), (3, 2),
+    (1 << 31, 0), ((1 << 31) - 1, 0), ((1 << 32) - 1, 0), (10 ** 9, 0), (10 ** 18, 0), (10 ** 19, 0), ((1 << 53) - 1, 0), (1 << 62, 0), (255, 0), (256, 0), (65535, 0), (10 ** 15, 3), (1 << 24, 0), (16777217, 0),
 ]
 NEG = lambda ps: [(-m, s) for m, s in ps if m != 0]
 
@@ -423,3 +427,53 @@ class OrderGen:
         n = wchoice(self.rnd, [(1, 5), (2, 2), (3, 1)])
         stmts = [self.node(d) for _ in range(n)]
         return stmts[0] if n == 1 else ["stmt", stmts]
+
+
+# ------------------------------------------------------------------------------------------------
+# long programs: size thresholds (operator-chain length, nesting depth, argument counts) are part of "to any size"
+
+
+def long_chain_tokens(rnd, n, table=ref.BUILTINS, ops=None):
+    """flat chain of n operands joined by random infix operators, with occasional `not`, prefix and postfix"""
+    ops = ops or sorted(table.infix)
+    t = []
+    for i in range(n):
+        if i:
+            op = rnd.choice(ops)
+            if rnd.random() < 0.1 and op not in table.prefix:
+                t.append("not")
+            t.append(op)
+        if rnd.random() < 0.1:
+            t.append(rnd.choice(["-", "!", "+"]))
+        t.append(rnd.choice(["a", "b", "1", "2.5", "x%d" % (i % 7), "'s'", "f(1)", "[1]"]))
+        if rnd.random() < 0.07:
+            t.append(rnd.choice(["++", "--"]))
+    return t
+
+
+def deep_nest(rnd, depth):
+    """a tree that is `depth` levels deep along one spine, mixing every nesting construct"""
+    t = rnd.choice([["ref", "x"], ["num", "1", 0]])
+    for _ in range(depth):
+        k = rnd.choice(["paren+", "list", "map", "fn", "un", "tern-else", "tern-then", "binr", "binl", "post"])
+        if k == "paren+":
+            t = ["bin", "*", ["bin", "+", t, ["ref", "y"]], ["num", "2", 0]]
+        elif k == "list":
+            t = ["list", [["num", "0", 0], t]]
+        elif k == "map":
+            t = ["map", [[["num", "1", 0], t]]]
+        elif k == "fn":
+            t = ["fn", "f", [t, ["ref", "z"]]]
+        elif k == "un":
+            t = ["un", rnd.choice(["-", "!", "not"]), t]
+        elif k == "tern-else":
+            t = ["tern", ["ref", "c"], ["num", "1", 0], t]
+        elif k == "tern-then":
+            t = ["tern", ["ref", "c"], t, ["num", "1", 0]]
+        elif k == "binr":
+            t = ["bin", rnd.choice(["-", "=", "&&", "in"]), ["ref", "a"], t]
+        elif k == "binl":
+            t = ["bin", rnd.choice(["-", "/", "||", "<"]), t, ["ref", "b"]]
+        else:
+            t = ["post", t, "++"]
+    return t
